@@ -113,8 +113,9 @@ Definition enabled_trips (d : data) (s : scenario) : list nat :=
   map t_id (filter (trip_enabled d s) (d_trips d)).
 
 (* --- hour index (connection_set.cpp:32-74) ---------------------------------------------------- *)
-Definition BEGIN_HOUR : Z := 0.
-Definition END_HOUR : Z := 32.
+(* generated from connection_set.cpp:8-9 *)
+Definition BEGIN_HOUR : Z := GEN_BEGIN_HOUR.
+Definition END_HOUR : Z := GEN_END_HOUR.
 
 (* forward: for every connection, while dep >= cur*3600 push its position and advance the hour *)
 Fixpoint fwd_index_loop (cs : list conn) (pos : nat) (cur : Z) (acc : list nat) : list nat * Z :=
